@@ -220,12 +220,20 @@ register('C01', 'other',
          'iff these instances declare one and the same Master and none is without Master, update_instance_state resets '
          'the Master when it leaves RUNNING, forgets the declaration of a STOPPED / ISOLATED peer (fresh StateModes) and '
          'leaves the rest of the local view untouched, get_stable_running_identifiers is the RUNNING set of a peer iff all '
-         'the states it publishes are stable. Agreement between instances is NOT proved (property of N interleaved FSMs).',
+         'the states it publishes are stable. select_master (the election rule, pools read in the pre-state): the Master '
+         'chosen is among the Masters recognised (declared, non-empty, by the instances seen RUNNING) if any, else among '
+         'the instances seen RUNNING; it is a core_identifiers member whenever some candidate is one; it has the lowest '
+         'nick identifier of the core candidates, or of all candidates when none is a core member; corollary: a single '
+         'recognised Master is kept; the master_identifier setter declares and publishes it. Known finding: KeyError when '
+         'a recognised Master is unknown to the local mapper (A24). '
+         'Agreement between instances is NOT proved (property of N interleaved FSMs).',
          not_decided=['agreement / convergence over schedules of N instances (no per-call contract expresses it)',
-                      'select_master: the contract transcribed from the rule (contracts/pending_c01_select_master.txt) '
-                      'is undecided within the solver budget and is not part of this check; its expected safe:KeyError '
-                      '(Appendix A24) is therefore not reported by this check',
-                      'evaluate_stability / ElectionState.next guards, Master-only automatic actions (C01.5) - FSM agent'],
+                      'evaluate_stability (the comprehension invariant relating the list of published stable RUNNING sets '
+                      'to the instances seen RUNNING is undecided within the budget: contracts/pending_c01_evaluate_stability.txt); '
+                      'ElectionState.next guards, Master-only automatic actions (C01.5) - FSM agent',
+                      'select_master: a declared Master that is known to the mapper but not seen RUNNING locally is a '
+                      'legitimate candidate of the rule as stated ("the Masters still recognised"); "the Master is seen '
+                      'RUNNING by all" needs the rely condition on peers'],
          assumptions=['rely condition on peers: a publication is an atomic snapshot of a state satisfying the same '
                       'per-instance contracts; FIFO per sender',
                       'structural validity of the per-instance maps (valid_structure / distinct_entries, contracts/c07.py)',
